@@ -4,8 +4,8 @@ package main
 // VerifUpdateBest hook, compared with the Coq model and with the property
 // statement itself) and the wait-list protocol (step-wise walks on the real
 // subscribe / notifySubscribers / unsubscribe / updateBest / SetMasterHead
-// compared with the LTS model; deterministic reproductions of the reachable
-// deadlocks the model proves).
+// compared with the LTS model; the real WaitMasterchainSeqno under the real Run
+// loop; regression oracles for the four repaired defects).
 
 import (
 	"context"
@@ -24,6 +24,8 @@ func init() {
 	execs["c13.ub"] = execC13UB
 	execs["c13.ubx"] = execC13UBX
 	execs["c13.walk"] = execC13Walk
+	execs["c13.wait"] = execC13Wait
+	execs["c13.repro"] = execC13Repro
 	gens["C13"] = genC13
 }
 
@@ -129,15 +131,6 @@ func specUpdateBest(strat int, cs []mc, prev int) int {
 	return choice
 }
 
-func wrapClass(cs []mc) bool {
-	for _, c := range cs {
-		if c.alive && c.seqno == 0xffffffff {
-			return true
-		}
-	}
-	return false
-}
-
 func parseMcs(v sx.V) []mc {
 	cs := make([]mc, len(v.List))
 	for i, x := range v.List {
@@ -179,17 +172,13 @@ func gridConns() []mc {
 }
 
 // c13.ubx: (strategy (prefix ...)) -> results for every last connection of the
-// grid x every previous choice; 'skip for the known-finding class
+// grid x every previous choice
 func execC13UBX(in sx.V) sx.V {
 	strat := in.List[0].I()
 	pre := parseMcs(in.List[1])
 	var outs []sx.V
 	for _, last := range gridConns() {
 		cs := append(append([]mc{}, pre...), last)
-		if wrapClass(cs) {
-			outs = append(outs, sx.A("skip"))
-			continue
-		}
 		for prev := -1; prev < len(cs); prev++ {
 			outs = append(outs, choiceSx(implUpdateBest(strat, cs, prev)))
 		}
@@ -217,13 +206,8 @@ func (f *c13Fails) oracleUB(strat int, cs []mc, prev int) {
 		return
 	}
 	in := sx.L(sx.Nat(strat), prevSx(prev), mcsSx(cs))
-	if wrapClass(cs) {
-		f.fail("c13.ub", in, "updatebest-seqno-wrap",
-			fmt.Sprintf("updateBest: an alive connection whose head seqno is 2^32-1 is never selected (seqno+1 wraps to 0): chose %d, property demands %d", got, want))
-	} else {
-		f.fail("c13.ub", in, "updatebest-spec",
-			fmt.Sprintf("updateBest chose %d, property demands %d", got, want))
-	}
+	f.fail("c13.ub", in, "updatebest-spec",
+		fmt.Sprintf("updateBest chose %d, property demands %d", got, want))
 }
 
 func ubClass(strat int, cs []mc) string {
@@ -263,17 +247,16 @@ func ubClass(strat int, cs []mc) string {
 
 func (f *c13Fails) emitUB(strat int, cs []mc, prev int) {
 	f.oracleUB(strat, cs, prev)
-	if wrapClass(cs) {
-		return // known-finding class: oracle only, not compared (DESIGN §5)
-	}
 	f.c.Emit("c13.ub", sx.L(sx.Nat(strat), prevSx(prev), mcsSx(cs)), ubClass(strat, cs))
 }
 
 func genC13UB(c *Ctx, f *c13Fails) {
 	r := c.R
 	grid := gridConns()
-	// the minimal witness of the known finding first (so that it is the recorded input)
-	f.oracleUB(0, []mc{{true, 0xffffffff, 1}}, -1)
+	// the witness of the repaired seqno-wrap defect first (so that it is the recorded input
+	// should the defect come back)
+	f.emitUB(0, []mc{{true, 0xffffffff, 1}}, -1)
+	f.emitUB(1, []mc{{true, 0xffffffff, 1}}, -1)
 	// empty pool
 	for strat := 0; strat < 3; strat++ {
 		f.emitUB(strat, nil, -1)
@@ -362,6 +345,7 @@ func genC13(c *Ctx) {
 	genC13UB(c, f)
 	genC13Repro(c, f)
 	genC13Walks(c, f)
+	genC13Waits(c, f)
 }
 
 var _ = prng.New
